@@ -301,8 +301,10 @@ class RandomGen(object):
     l = self.expr(ctx, d + 1) if self.r.random() < 0.5 else self.atom(ctx)
     if self.has('chaincmp') and self.r.random() < 0.15:
       self.tags.add('chaincmp')
-      return '%s %s %s %s %s' % (self.atom(ctx), self.r.choice(['<', '<=']), l,
-                                 self.r.choice(['<', '<=']), self.atom(ctx))
+      # the middle operand is kept effect-free: duplicated evaluation of an
+      # effectful middle operand is a listed known finding with its own witness
+      return '%s %s %s %s %s' % (self.expr(ctx, d + 1), self.r.choice(['<', '<=']), self.atom(ctx),
+                                 self.r.choice(['<', '<=']), self.expr(ctx, d + 1))
     return '%s %s %s' % (l, self.r.choice(ops), self.atom(ctx))
 
   def cond(self, ctx, d=0):
